@@ -25,6 +25,11 @@ def run(ctx):
     ctx.extra["expect_error"] = summ["expect_error"]
     pscommon.absorb(ctx, summ, "vh replay-ps (MC_PSOps, tier %s)" % ctx.tier, "PSOps!DataOp")
     pscommon.negative_control(ctx, vec, base)
+    # dictionary literals with repeated keys (pairs are entered in order)
+    cd = {"Tier": '"quick"', "StepBound": "400", "MaxBudget": "1", "FeedLen": "1", "Family": '"dictlit"'}
+    s3, _, _ = pscommon.run_mbt(ctx, "MC_PSProg", cd, "psdictlit", base_heap="FreshHeap", invariants=("Emit", "Inv"))
+    pscommon.absorb(ctx, s3, "vh replay-ps (MC_PSProg dictlit)", "PSOps!DataOp >> (pairs in stack order)")
+    ctx.extra["dictionary_literals"] = s3["vectors"]
     # longer programs: seeded random walks in which the environment feeds tokens that the
     # specification says are in the operators' domains (MC_PSProg family feed)
     n = 1500 if ctx.tier == "quick" else 20000  # measured: 25 programs per second, one worker
